@@ -269,8 +269,11 @@ Record rstate := { rb : bytes; rst : sc; rsegs : list bytes; rserr : option N; r
 Inductive rd_status := RNil | REnd (r : res unit).   (* err == nil | io.EOF (Ok tt) or an error *)
 
 (* bytes.Buffer.Read(p) on a non-empty buffer: n = copy(p, buf); also (0, nil) for len(p) = 0 *)
-Definition deliver (n : N) (b : bytes) : bytes * bytes :=
-  match takeN n b with Some (a, r) => (a, r) | None => (b, []) end.
+Fixpoint deliver (n : N) (b : bytes) : bytes * bytes :=
+  match b with
+  | [] => ([], [])
+  | c :: t => if n =? 0 then ([], b) else let '(a, r) := deliver (n - 1) t in (c :: a, r)
+  end.
 
 (* one call Read(p) with len(p) = n *)
 Definition read_p (fin : N) (dt : bool) (n : N) (s : rstate) : bytes * rd_status * rstate :=
